@@ -767,7 +767,9 @@ class Dataset(AbstractDataset, dict, OpMixin, GetSetDelAttrMixin):
         """ Analogous to DimArray.interp_axis
         """
         # copy some of DimArray.interp_axis code to re-use the weights
-        newaxis = Axis(values, self.axes[axis].name) # necessary array & type checks 
+        if isinstance(values, Axis):
+            axis = values.name # an Axis names its dimension (like in reindex_axis)
+        newaxis = Axis(values, self.axes[axis].name) # necessary array & type checks
 
         # sort the axis if needed, to apply numpy interp
         obj = _interp_internal_maybe_sort(self, axis, issorted)
